@@ -1454,7 +1454,8 @@ def run(idx, rep, tier):
         if _val is None:
             continue
         _n += 1
-        rep.check(isinstance(_val, ast.List), 'C17.R9',
+        rep.check(isinstance(_val, ast.List) or (
+            is_call(_val, 'list') and not _val.args), 'C17.R9',
                   key(_fa, 'one entry list per name'),
                   'a fresh list display is stored',
                   f'`{norm(_val)}` is stored under every new name of the '
